@@ -76,9 +76,9 @@ pub fn run(ctx: &Ctx) {
         check_case(ctx, &pairs[i], &cfg_i);
     });
     ctx.run.space(json!({"universe": "every scalar with a single-scalar std lower- or upper-case partner p: lists [p,c], [c,p], [\"pc\"], [\"cp\"], [\"px\",\"cy\"] (list order as given)", "sets": pairs.len(), "settings": "i", "cases": pairs.len()}));
-    let bases: Vec<Cfg> = [0, R, X, G, E, D, W].iter().map(|b| Cfg::new(I | b)).collect();
-    let mut blocks = vec![Block::new(Universe::new("U_adv(A_case)", A_CASE, 2, 2, true), bases.clone(), "i x {{}, r, x, g, e, d, w}")];
-    blocks.push(Block::new(Universe::new("U_adv(A_case)", A_CASE, 3, 1, false), bases.clone(), "i x {{}, r, x, g, e, d, w}"));
+    let bases: Vec<Cfg> = [0, R, X, G, E, D, W, ND, NW | NS].iter().map(|b| Cfg::new(I | b)).collect();
+    let mut blocks = vec![Block::new(Universe::new("U_adv(A_case)", A_CASE, 2, 2, true), bases.clone(), "i x {{}, r, x, g, e, d, w, D, W+S}")];
+    blocks.push(Block::new(Universe::new("U_adv(A_case)", A_CASE, 3, 1, false), bases.clone(), "i x {{}, r, x, g, e, d, w, D, W+S}"));
     blocks.push(Block::new(Universe::new("U_aAbB{a,A,b,B}", &["a", "A", "b", "B"], 2, 3, true), vec![Cfg::new(I), Cfg::new(I | R), Cfg::new(I | NA | NE)], "i, i+r, i+na+ne"));
     if thorough {
         blocks.push(Block::new(Universe::new("U_aAbB{a,A,b,B}", &["a", "A", "b", "B"], 3, 3, true), vec![Cfg::new(I), Cfg::new(I | NE)], "i, i+ne"));
